@@ -121,7 +121,8 @@ def exit_rules(res, prog, c):
 def wiring(res, prog, f):
     def cn(t):
         """a tree's text with single-definition locals expanded; the parsed command line is called `cli` again"""
-        return show(f.expand(t)).replace('(clap::Parser::parse)', 'cli')
+        import normal
+        return show(normal.simplify(f.expand(t))).replace('(clap::Parser::parse)', 'cli')
     res.rule('C20.3', 0, floor=4, note='no failure exit is reachable after something was written to the primary output')
     res.rule('C20.4', 0, floor=5, note='the output writers are only handed to the library printers')
     res.rule('C20.5', 0, floor=5, note='each printer call is control-dependent on the option that selects it, with the right flag / writer')
